@@ -197,4 +197,40 @@ def Handle.pop (h : Heap) (hd : Handle) (dflt : Option Val) : Except HErr (Heap 
     | none => .error .popError
   | .error e => .error e
 
+/-! ### `Match.parent`: the `TraverserMatch` objects behind a `Match` and its ancestors
+
+`Match(m).parent` wraps the *same* `TraverserMatch` object `m.parent` every time, and every
+`TraverserMatch` caches its `data` in an attribute the setter / deleter overwrite.  The
+container a write goes to is read from the parent object's cache *at the time of the write*:
+after `m.parent.data = c` later writes through `m` land in `c`.  A group holds the cells of
+one result and of the matches reachable from it through `.parent`, nearest first. -/
+
+structure HCell where
+  name : Name
+  data : Val
+  pathStr : String
+  deriving Inhabited
+
+def cellOf (n : MNode Val) : HCell := { name := n.dataName, data := n.data, pathStr := n.pathStr }
+
+/-- `m, m.parent, m.parent.parent, …` (an imaginary match is an object of its own whose
+`.parent` is the parent of the match it shadows) -/
+def MNode.cells : MNode Val → List HCell
+  | .root d => [cellOf (.root d)]
+  | .child p nm d => cellOf (.child p nm d) :: p.cells
+  | .imag p => cellOf (.imag p) :: p.cells.tail
+  | .par r f => cellOf (.par r f) :: f.cells
+
+/-- the `Match` at depth `d` of a group, as the write operations see it now -/
+def groupHandle (cs : List HCell) (d : Nat) : Option Handle :=
+  match cs[d]?, cs[d+1]? with
+  | some c, some p => some { parent := p.data, name := c.name, cache := c.data, pathStr := c.pathStr }
+  | _, _ => none
+
+/-- after an operation: the cache of the cell at depth `d` is what the handle now caches -/
+def groupStore (cs : List HCell) (d : Nat) (hd : Handle) : List HCell :=
+  match cs[d]? with
+  | some c => cs.set d { c with data := hd.cache }
+  | none => cs
+
 end Treepath
